@@ -12,6 +12,7 @@ import time
 
 import kani_engine as K
 import verus_engine as V
+import kaniw_engine as KW
 from units import UNITS, PROPS
 
 VERIF = K.VERIF
@@ -300,6 +301,86 @@ def run_v(prop, u, results):
         ur.reason = "tool limit: " + r.get("message", r["status"])[:800]
 
 
+# ----------------------------------------------------------------------------- engine KW (woven text, standalone Kani)
+def run_kw(prop, units, jobs, results, native_replay=True):
+    by_spec = {}
+    for u in units:
+        by_spec.setdefault(u["spec"], []).append(u)
+    for spec, us in by_spec.items():
+        parsed, info = KW.run_units(spec, us, os.path.join(BUILD, "kaniw"), jobs=jobs)
+        for u in us:
+            ur = UnitResult(u)
+            results[u["id"]] = ur
+            ur.backend = "kani-0.68 (standalone, woven text)/cbmc-6.11/cadical"
+            ur.detail["weave"] = info.get("weave_report", {})
+            ur.detail["woven_file"] = info.get("file")
+            if parsed is None:
+                ur.status = "undecided"
+                ur.reason = "lost anchor (weave): " + info.get("message", "")
+                continue
+            hr = parsed[u["harness"]]
+            ur.time_s = hr.duration_s
+            ur.covers = hr.covers
+            if not hr.present:
+                ur.status = "undecided"
+                ur.reason = "no verdict from standalone Kani (woven text rejected / lost anchor): " + info.get("log", "")[-600:]
+                continue
+            ur.obligations, ur.discharged = hr.n_checks, hr.n_passed
+            ur.samples = [fmt_check(c) for c in hr.checks if c.get("category") != "cover" and c.get("status") == "Success"][:2]
+            if hr.failed:
+                ur.status = "violation"
+                ur.failed = [fmt_check(c) for c in hr.failed]
+                ur.reason = "failed obligation(s) on the woven text: " + "; ".join(c["description"] for c in ur.failed[:3])
+                d = os.path.join(REPLAY, prop)
+                os.makedirs(d, exist_ok=True)
+                path = os.path.join(d, u["id"] + ".replay.json")
+                json.dump({"property": prop, "unit": u["id"], "engine": "KW", "harness": u["harness"], "functions_under_contract": u["fns"],
+                           "failed_obligations": ur.failed, "woven_file": info.get("file"), "weave_report": info.get("weave_report"),
+                           "native_outcome": "unavailable", "verifier_output": info.get("log", ""), "repo_head": repo_head(),
+                           "note": "the counterexample is over the woven integer function; the operands' bitvec load/store is dropped (trusted)"},
+                          open(path, "w"), indent=1)
+                ur.replay_path = path
+                ur.native = "unavailable"
+                if native_replay and u.get("native_template"):
+                    try:
+                        kw_native_replay(u, info.get("file"), path, ur)
+                    except Exception as e:  # replay problems never turn into alarms or crashes
+                        ur.native = "unavailable"
+            elif hr.status != "success" or hr.tool_failed or hr.undetermined:
+                ur.status = "undecided"
+                ur.reason = "tool limit: harness status %s (timeout %ss)" % (hr.status, info.get("timeout"))
+            elif hr.n_checks == 0 or any(st != "Satisfied" for _, st in hr.covers) or len(hr.covers) < u.get("min_covers", 1):
+                ur.status = "undecided"
+                ur.reason = "vacuous: zero obligations or cover not satisfied"
+            else:
+                ur.status = "discharged"
+
+
+def kw_native_replay(u, woven_file, replay_path, ur):
+    """Counterexample of a woven-text unit -> concrete operands (standalone Kani concrete playback, print mode) ->
+    a native test on the REAL types generated from the unit's template -> cargo kani playback."""
+    outdir = os.path.dirname(woven_file)
+    p = subprocess.run(["kani", woven_file, "-Z", "concrete-playback", "-Z", "unstable-options", "--concrete-playback=print", "--exact", "--harness", u["harness"],
+                        "--harness-timeout", str(u.get("timeout", 600))], cwd=outdir, stdout=subprocess.PIPE, stderr=subprocess.STDOUT,
+                       text=True, env=K.env())
+    tests = [t for t in re.findall(r"```\s*\n(.*?)```", p.stdout, re.S) if "#[test]" in t]
+    noncover = [t for t in tests if not re.search(r"Check for `cover`", t)]
+    if not (noncover or tests):
+        return
+    vals = [int(v) for v in re.findall(r"^\s*// (\d+)[a-z]*\s*$", (noncover or tests)[0], re.M)]
+    vals = (vals + [0, 0, 0])[:3]
+    t = u["native_template"]
+    text = open(os.path.join(VERIF, "kani", "native", t["file"])).read()
+    text = text.replace("__TYPE__", t["type"]).replace("__BITS__", str(t["bits"]))
+    for k, name in enumerate(("__X__", "__Y__", "__Z__")):
+        text = text.replace(name, str(vals[k]))
+    ok, out = native_test(t["module"], t["name"], text)
+    rec = json.load(open(replay_path))
+    rec.update(concrete_values=vals, native_test=text, native_outcome=ok, native_output=out[-2500:])
+    json.dump(rec, open(replay_path, "w"), indent=1)
+    ur.native = ok
+
+
 # ----------------------------------------------------------------------------- PY cross-checks (not counted)
 def run_py(prop, u, results, native_replay=True):
     import crosschecks
@@ -386,7 +467,7 @@ def write_evidence(prop, tier, units, results, wall, seed, viol, known_hits):
     for u in units:
         if u["engine"] == "K":
             files.add(os.path.join(VERIF, "kani", u["file"] + ".rs"))
-        elif u["engine"] == "V":
+        elif u["engine"] in ("V", "KW"):
             files.add(os.path.join(VERIF, "verus", u["spec"] + ".py"))
             wf = results[u["id"]].detail.get("woven_file") if u["id"] in results else None
             if wf:
@@ -474,6 +555,9 @@ def check(prop, tier, only_units, jobs, native_replay=True):
     ku = [u for u in units if u["engine"] == "K"]
     if ku:
         run_k(prop, tier, ku, jobs, results, native_replay)
+    kw = [u for u in units if u["engine"] == "KW"]
+    if kw:
+        run_kw(prop, kw, jobs, results, native_replay)
     for u in units:
         if u["engine"] == "V":
             run_v(prop, u, results)
